@@ -1,2 +1,67 @@
-From GB Require Import Bucket BucketOpen Gc.
-Example C06_placeholder : True. Proof. exact I. Qed.
+(* C06 -- a process kill in normal operation never yields wrong or pre-durable data.
+   Property theorems only; proofs live in proofs/Restart4.v (start-up on any directory state), RecordProofs.v. *)
+From Coq Require Import NArith ZArith List Bool String.
+From GB Require Import Consts Words Hash Record Compress Bucket BucketOpen CheckL2 RefMap Refine CollideProofs
+     Restart2 Restart4 RecordProofs.
+Import ListNotations.
+Open Scope N_scope.
+
+(* Crash model: SIGKILL keeps completed writes and loses in-memory state.  In the bucket model the directory a kill
+   leaves behind is dir_of b rm: the data files as flushed so far (write buffers dropped), the hint splits already
+   dumped (minus any set rm of files, which also covers a dump caught between temp file and rename), the tree
+   image if any.  Start-up is bucket.open on that directory. *)
+
+(* (1) KILL AT A FLUSHED MOMENT: for ALL states reachable by client operations and restarts in which every write
+   buffer is empty (right after a forced or periodic flush -- so every acknowledged write is durable), for ANY
+   subset of hint files present, with the tree image absent or unusable: start-up is not refused, the invariant
+   holds again, and every live key reads exactly its last write (value, flags, version); deleted keys stay
+   deleted. *)
+Theorem C06_kill_after_flush : forall (cf : cfg) (hf : bytes -> N) (K : list bytes),
+  (forall k1 k2, In k1 K -> In k2 K -> hf k1 = hf k2 -> k1 = k2) -> 0 < c_splitcap cf ->
+  forall b m rm, RInv2 hf K b m -> closed b -> rm_trees rm = true ->
+  exists b' m', bkt_open cf hf (dir_of b rm) = Opened b' /\ RInv2 hf K b' m' /\ view K m m'.
+Proof. exact kill_flushed_x. Qed.
+Print Assumptions C06_kill_after_flush.
+
+(* (2) REFUSAL only for a partially written record: start-up answers Refused exactly when some existing data file's
+   size is not a multiple of the 256-byte block -- for EVERY directory state *)
+Theorem C06_refused_iff_partial_block : forall cf hf d,
+  bkt_open cf hf d = Refused <->
+  existsb (fun k => k_exists k && negb (k_fsize k mod 256 =? 0)) (dr_chunks d) = true.
+Proof.
+  intros cf hf d. rewrite bkt_open_eq. destruct (existsb _ (dr_chunks d)); split; intros H; try reflexivity; discriminate.
+Qed.
+Print Assumptions C06_refused_iff_partial_block.
+
+(* (3) NEVER A TORN VALUE: whatever bytes a file holds, a positional read returns a record only after the size
+   limits and the CRC over exactly the returned bytes have been checked (C09); and a hit returned by get on the
+   direct path is a record whose key is the requested key (C13_hit_is_record_of_key) *)
+Theorem C06_read_is_checked : forall c s r, read_at c s = RdOK r ->
+  exists h, decode_header s = Some h /\ hdr_crc_ok h (rkey r) (rval r) = true /\
+            valid_ksz c (h_ksz h) = true /\ valid_vsz c (h_vsz h) = true /\
+            rflag r = h_flag h /\ rver r = h_ver h /\ rts r = h_ts h /\
+            rkey r ++ rval r = takeN (h_ksz h + h_vsz h) (dropN rec_header_size s) /\
+            lenN (rkey r ++ rval r) = h_ksz h + h_vsz h.
+Proof. exact read_at_sound. Qed.
+Print Assumptions C06_read_is_checked.
+
+(* (4) the general clause -- a kill at ANY moment serves values at least as new as the durable ones -- is REFUTED
+   for the code as it stands (known finding F10): a hint split can be dumped while the records it describes are
+   still in the write buffer; after the kill the hint file claims more data than the file holds, start-up does not
+   rescan, and key A -- whose value a1 IS durable -- answers an error *)
+Definition f10_lc : l2cfg := mkL2 (mkCfg 4096 4096 2 false 3 false 1) [] 0.
+Definition f10_z : zinfo := mkZ true 0 0.
+Definition f10_ops : list l2op :=
+  [OSet "41" "6131" 0 0 1 f10_z; OSet "42" "6231" 0 0 2 f10_z; OFlush;
+   OSet "43" "6331" 0 0 3 f10_z; OSet "41" "6132" 0 0 4 f10_z; OSet "44" "6431" 0 0 5 f10_z].
+
+Theorem C06_hint_ahead_of_data_refuted :
+  exists b b', run_b f10_lc bucket0 f10_ops = Some b /\
+    bkt_open (l_cfg f10_lc) (forced_hash []) (dir_of b rm_none) = Opened b' /\
+    snd (bkt_get (forced_hash []) b' (unhex "41")) = GFail /\
+    (exists ts p, snd (bkt_get (forced_hash []) b' (unhex "42")) = GHit (unhex "6231") 0 1 ts p).
+Proof.
+  eexists. eexists. split; [vm_compute; reflexivity|]. split; [vm_compute; reflexivity|]. split; [vm_compute; reflexivity|].
+  eexists. eexists. vm_compute. reflexivity.
+Qed.
+Print Assumptions C06_hint_ahead_of_data_refuted.
